@@ -144,6 +144,33 @@ func c09Eval(c c09Case) (ok bool, sig, detail string) {
 			return false, "circ-range", fmt.Sprintf("InvertCircular=%v leaves [0,%d)", circ, n)
 		}
 	}
+	// every piece is one interval of the circle: a forward segment, or (at most once) the two end pieces
+	// [a,n) + [0,b) read across the origin
+	across := 0
+	for _, r := range circ {
+		switch v := r.(type) {
+		case gts.Segment:
+			if v[1] <= v[0] {
+				return false, "circ-shape", fmt.Sprintf("InvertCircular=%v has a backward/empty segment", circ)
+			}
+		case gts.Regions:
+			okShape := len(v) == 2
+			if okShape {
+				a, aok := v[0].(gts.Segment)
+				b, bok := v[1].(gts.Segment)
+				okShape = aok && bok && a[0] < a[1] && b[0] < b[1] && a[1] == n && b[0] == 0
+			}
+			if !okShape {
+				return false, "circ-piece-not-contiguous", fmt.Sprintf("InvertCircular=%v: piece %v is not one stretch of the circle (only [a,%d)+[0,b) may be joined)", circ, v, n)
+			}
+			across++
+		default:
+			return false, "circ-shape", fmt.Sprintf("InvertCircular=%v has a piece of unexpected type %T", circ, r)
+		}
+	}
+	if across > 1 {
+		return false, "circ-piece-not-contiguous", fmt.Sprintf("InvertCircular=%v reads across the origin more than once", circ)
+	}
 	for p := 0; p < n; p++ {
 		if cinv[p] != inv[p] {
 			return false, "circ-partition", fmt.Sprintf("InvertCircular=%v InvertLinear=%v differ at position %d", circ, lin, p)
